@@ -29,3 +29,28 @@ NOT_CARRIED = ["the textual substitution on the line (str.replace chains in pars
                "hash functions (sha1) and inet_aton / inet_ntoa are assumed deterministic / mutually inverse",
                "Hostname.__init__ (the system's own name enters the database at construction) and parse_line are not under contract",
                "that the invariants hold over any call history is the pre/post pair of each *_2db function (induction over the history is the meta-step)"]
+
+
+def bounded(check):
+    """bounded stand-in / native witness search on the real Cleaner for the parts outside the contracts (textual substitution on the line)"""
+    import json, os, subprocess
+    n = 2 if check.tier == "quick" else 3
+    here = os.path.dirname(os.path.dirname(os.path.abspath(__file__)))
+    p = subprocess.run(["/venv/bin/python", os.path.join(here, "bounded", "obfuscation_mapping.py"), check.repo.root, str(n)],
+                       stdout=subprocess.PIPE, stderr=subprocess.PIPE, universal_newlines=True, timeout=3000)
+    line = (p.stdout.strip().splitlines() or ["{}"])[-1]
+    try:
+        info = json.loads(line)
+    except ValueError:
+        info = {"error": (p.stderr or p.stdout)[-400:]}
+    out = dict(name="same original -> same substitute; different IPv4 / host names -> different substitutes; the report pairs what the output shows",
+               level="bounded", bound="every sequence of <= %d lines over 48-68 line shapes (1-2 of 8 originals per line), two specs through one Cleaner" % n,
+               result=info, violation=(p.returncode == 1), error=(p.returncode not in (0, 1)))
+    if p.returncode == 1:
+        os.makedirs(os.path.join(here, "replays"), exist_ok=True)
+        path = os.path.join(here, "replays", "C09-bounded.json")
+        json.dump(dict(obligation="bounded:obfuscation-mapping", witness=info,
+                       replay_cmd="/venv/bin/python %s %s %d" % (os.path.join(here, "bounded", "obfuscation_mapping.py"), check.repo.root, n)),
+                  open(path, "w"), indent=1)
+        out["replay"] = path
+    return [out]
